@@ -944,3 +944,84 @@ def rule_id_record_interlace(ctx):
             ctx.holds("DISKIL", key, f.where(), "the DFTAG_ID record is built without consulting the interlace the image was created with", nontrivial=True)
     ctx.floor("DISKIL", 1, n, "(builders of the image dimension record)")
     return n
+
+
+def rule_data_length_positive(ctx):
+    """HASDATA (C09): "the image has data" means that the length of its data element is *positive*.  GRsetcompress creates the
+    compressed element at once with length 0, so for a compressed image `>= 0` is true before anything was written: the first
+    partial write is then taken for a write into an existing image, the fill-around-the-block path is skipped, and the
+    unwritten pixels are whatever the coder produces.  Every comparison of GRIdata_length() (or of Hlength of the image
+    element) that decides this is `> 0`."""
+    from .facts import calls_in
+    prog = ctx.prog
+    n = 0
+    for f in prog.lib_funcs():
+        if not f.rel.endswith("hdf/src/mfgr.c"):
+            continue
+        k = 0
+        for _b, _i, s, x in f.nodes(True):
+            if x[0] != "bin" or x[1] not in (">", ">=", "<", "<=", "==", "!="):
+                continue
+            l, r = strip(x[2]), strip(x[3])
+            if kind(l) == "call" and l[1] == "GRIdata_length" and is_int(r):
+                op, c = x[1], int_val(r)
+            elif kind(r) == "call" and r[1] == "GRIdata_length" and is_int(l):
+                op, c = {"<": ">", "<=": ">=", ">": "<", ">=": "<=", "==": "==", "!=": "!="}[x[1]], int_val(l)
+            else:
+                continue
+            k += 1
+            n += 1
+            key = "HASDATA:%s#%d" % (f.name, k)
+            line = s.get("l", f.line)
+            if (op == ">" and c == 0) or (op == ">=" and c == 1) or (op == "<=" and c == 0) or (op == "<" and c == 1):
+                ctx.holds("HASDATA", key, f.where(line), "`%s`: an element of length 0 counts as no data" % render(x)[:50], nontrivial=True)
+            else:
+                ctx.violated("HASDATA", key, f.where(line), "`%s` takes an element of length 0 for image data: a compressed image has such an element from GRsetcompress on, before its first write" % render(x)[:50])
+    ctx.floor("HASDATA", 2, n, "(decisions whether an image has data)")
+    return n
+
+
+def rule_whole_image_seek(ctx):
+    """WHOLESEEK (C09): the access element of an image stays open for as long as the image id lives, and its position is wherever
+    the previous read or write left it.  The whole-image arms of GRreadimage and GRwriteimage (`if (whole_image == TRUE)`)
+    therefore position the element at offset 0 before their single transfer; without the seek a second whole-image write
+    through the same id is appended behind the first and the image keeps its old pixels."""
+    from .codec import ast_walk
+    from .facts import calls_in
+    from .rules_loops import seq_of
+    prog = ctx.prog
+    n = 0
+    for f in prog.lib_funcs():
+        ast = f.raw.get("ast")
+        if not ast or not f.rel.endswith("hdf/src/mfgr.c"):
+            continue
+        arms = []
+
+        def vis(nd, st):
+            if nd[0] == "if" and nd[1] is not None and any(x[0] == "var" and x[1] == "whole_image" for x in walk(nd[1], True)):
+                arms.append(nd)
+            return True
+
+        ast_walk(ast, vis)
+        for k, nd in enumerate(arms, 1):
+            seq = seq_of(nd[2])
+            xfer = None
+            seek0 = False
+            for e, _k in seq:
+                for c in calls_in(e, True):
+                    if c[1] == "Hseek" and len(c[3]) > 1 and is_int(c[3][1], 0) and xfer is None:
+                        seek0 = True
+                    if c[1] in ("Hread", "Hwrite") and xfer is None:
+                        xfer = c[1]
+                        ok = seek0
+            if xfer is None:
+                continue
+            n += 1
+            key = "WHOLESEEK:%s#%d" % (f.name, k)
+            line = nd[-3] if isinstance(nd[-3], int) else f.line
+            if ok:
+                ctx.holds("WHOLESEEK", key, f.where(line), "the whole-image arm seeks to offset 0 before its %s" % xfer, nontrivial=True)
+            else:
+                ctx.violated("WHOLESEEK", key, f.where(line), "the whole-image arm does its %s without first seeking to offset 0: the transfer happens wherever the previous access to the still open element ended" % xfer)
+    ctx.floor("WHOLESEEK", 2, n, "(whole-image transfers)")
+    return n
